@@ -62,7 +62,10 @@ func CheckCompleted(o *vrt.Obs, sc *Scenario, res Result, pendingA, pendingB []s
 	if res.Link.Deadlock {
 		o.Violate("deadlock", "both stations blocked in Read with nothing in flight (A err=%v, B err=%v)", res.A.Err, res.B.Err)
 	}
-	if res.Killed {
+	if res.Spun {
+		o.Poisoned = true
+		o.Violate("no-return:cpu-spin", "%s", res.KillWhy)
+	} else if res.Killed {
 		o.Violate("no-return:"+strings.Join(strings.Fields(res.KillWhy), "_"), "%s", res.KillWhy)
 	}
 	if res.A.Err != nil {
@@ -312,7 +315,10 @@ func CheckReturned(o *vrt.Obs, res Result, what string) {
 	if res.Link.Deadlock {
 		o.Violate("hang:deadlock", "%s: both stations blocked in Read with nothing in flight and the link intact", what)
 	}
-	if res.Killed {
+	if res.Spun {
+		o.Poisoned = true
+		o.Violate("hang:cpu-spin", "%s: %s", what, res.KillWhy)
+	} else if res.Killed {
 		o.Violate("hang:"+strings.Join(strings.Fields(res.KillWhy), "_"), "%s: %s", what, res.KillWhy)
 	}
 	if !res.Link.Closed[0] || !res.Link.Closed[1] {
